@@ -19,9 +19,18 @@
     of wrapping, and no thread faults in the run (the invariant that proves fault freedom, C01, does
     not cover Cache commands, so this stays a hypothesis here).  Successive loads of one cache are
     monotone: their instants are strictly ordered ([cache_loads_monotone] in LinCache.v).
+
+    WITH FAULT FREEDOM PROVED ([ASModel.Cch*]): the master invariant is re-proved for programs WITH Cache
+    commands ([MasterC]: the reference a cache owns is counted in the frames of a running cache load and
+    cancelled against its handle); [C16_no_fault] - no thread faults in any run within [RunOKC] (as
+    [Main.RunOK], Cache commands allowed, plus: no other thread touches a cache handle while its load
+    runs - Cache::load takes &mut self); [C16_cache_linearizable_total] is [C16_cache_linearizable] with
+    the fault-freedom hypothesis discharged; [C16_scope_inhabited]: a checked run with a cache hit and
+    a cache miss that destroys the superseded value satisfies the hypotheses.
 *)
 From ASModel Require Import Base State Orderings_gen Step Run Progress Hist Inv InvTl InvProto InvStep Sum StepCases.
 From ASModel Require Import GenDefs Gen1 Gen2 Gen EnvDefs Env4 Env LinDefs Lin2 Lin LinCache.
+From ASModel Require Import Safe Main CchMain CchEx.
 
 Theorem C16_revalidate :
   forall cf s l c a k x,
@@ -60,6 +69,36 @@ Theorem C16_cache_linearizable : forall cf inits progs sched t i cm c k pa pb xa
     exists j, (pa + 1 <= j <= pb + 1)%nat /\ mem (sh (run_state cf s0 (firstn j sched))) (LStore c) = v.
 Proof. exact cache_linearizable_bound. Qed.
 
+Theorem C16_no_fault : forall cf inits progs sched,
+  RunOKC cf inits progs sched ->
+  NoFault (run_state cf (init_state inits progs) sched) /\
+  forall te, In te (snd (run cf (init_state inits progs) sched)) ->
+    forall a, ~ In (EvFault (FDeadInc a)) (snd te) /\ ~ In (EvFault (FDeadDec a)) (snd te).
+Proof. exact CchC01_no_fault. Qed.
+
+Theorem C16_cache_linearizable_total : forall cf inits progs sched t i cm c k pa pb xa tb xb,
+  let s0 := init_state inits progs in
+  RunOKC cf inits progs sched ->
+  nth_error (t_prog (thr s0 t)) (N.to_nat i) = Some cm ->
+  cache_cmd_of (run_state cf s0 (firstn pa sched)) cm c k ->
+  (pa <= pb)%nat ->
+  nth_error sched pa = Some (t, xa) ->
+  t_status (thr (run_state cf s0 (firstn pa sched)) t) = Running ->
+  t_stack (thr (run_state cf s0 (firstn pa sched)) t) = [] ->
+  t_cmdi (thr (run_state cf s0 (firstn pa sched)) t) = i ->
+  nth_error sched pb = Some (tb, xb) ->
+  t_cmdi (thr (run_state cf s0 (firstn pb sched)) t) = i ->
+  t_cmdi (thr (run_state cf s0 (firstn (S pb) sched)) t) = i + 1 ->
+  exists v, hnd (run_state cf s0 (firstn (S pb) sched)) k = HCache c v /\
+    exists j, (pa + 1 <= j <= pb + 1)%nat /\ mem (sh (run_state cf s0 (firstn j sched))) (LStore c) = v.
+Proof. exact CchC16_cache_linearizable. Qed.
+
+Theorem C16_scope_inhabited : exists cf inits progs sched, RunOKC cf inits progs sched.
+Proof. do 4 eexists. exact RunOKC_example. Qed.
+
 Print Assumptions C16_revalidate.
 Print Assumptions C16_replace_releases_old.
 Print Assumptions C16_cache_linearizable.
+Print Assumptions C16_no_fault.
+Print Assumptions C16_cache_linearizable_total.
+Print Assumptions C16_scope_inhabited.
